@@ -948,11 +948,13 @@ func runC05Zt(h *History, stt *stats) result {
 	if len(c.After) > 0 {
 		// the reconnected streams keep following changes
 		stt.Reconnects["zt-changes-after-reconnect"]++
-		if r := ztApply(target, w, c.After, nil, stt); r != nil {
-			return *r
-		}
-		if !target.quiesceLoose(wc, od) {
-			return timeoutResult("changes after the reconnect", info())
+		for _, o := range c.After {
+			if r := ztApply(target, w, []Op{o}, nil, stt); r != nil {
+				return *r
+			}
+			if !target.quiesceLoose(wc, od) {
+				return timeoutResult("changes after the reconnect", info())
+			}
 		}
 	}
 	df, ok := ztSettle(target, stt, wc, od, "rc")
